@@ -145,6 +145,26 @@ func (d *disp) VarlinkDispatch(ctx context.Context, c varlink.Call, method strin
 		case 'O':
 			err := c.ReplyError(ctx, "org.varlink.service.Foo", nil)
 			log("O:" + errStr(err))
+		case 'P', 'Q':
+			// the usual "return call.ReplyError(...)" shape with a name the library refuses (P: no interface
+			// part, Q: reserved namespace): the handler hands the refusal back as its own error
+			name := map[rune]string{'P': "NoDot", 'Q': "org.varlink.service.Foo"}[a]
+			if err := c.ReplyError(ctx, name, nil); err != nil {
+				log(string(a) + ":ret-err")
+				return err
+			}
+			log(string(a) + ":ok")
+		case 'D':
+			// "return call.Reply(...)" with Continues set although the caller may not have asked for more
+			n++
+			c.Continues = true
+			err := c.Reply(ctx, map[string]int{"c": n})
+			c.Continues = false
+			if err != nil {
+				log("D:ret-err")
+				return err
+			}
+			log("D:ok")
 		case 'X':
 			log("X")
 			return errors.New("handler error")
